@@ -134,7 +134,9 @@ class World(object):
         os.makedirs(os.path.join(self.dir, 'a_folder'), exist_ok=True)
 
     # ------------------------------------------------------------------ beads
-    def beads_table(self, fault='none', inst='A', rows=('BOK', 'BNOMEF', 'BFAIL', 'BOTHER', 'BAMP', 'BVOLT', 'BNOCURVE')):
+    MEF_HDR = ['%s MEF Values', ' %s MEF Values', '%s  MEF Values']     # header spellings the documented pattern accepts
+
+    def beads_table(self, fault='none', inst='A', rows=('BOK', 'BNOMEF', 'BFAIL', 'BOTHER', 'BAMP', 'BVOLT', 'BNOCURVE'), hdr=0):
         fl = INSTR[inst]['fl']
         other = 'B' if inst == 'A' else 'A'
         mv = [', '.join(str(v) if v else 'None' for v in MEF[0]), ', '.join(str(v) if v else 'None' for v in MEF[1])]
@@ -144,9 +146,9 @@ class World(object):
             r = collections.OrderedDict([('Instrument ID', i), ('File Path', f), ('Clustering Channels', cl or ', '.join(INSTR[i]['fl'])),
                                          ('Gate Fraction', frac)])
             for j, c in enumerate(INSTR['A']['fl'] + INSTR['B']['fl']):
-                r[c + ' MEF Values'] = None
+                r[self.MEF_HDR[hdr] % c] = None
             for j, c in enumerate(INSTR[i]['fl']):
-                r[c + ' MEF Values'] = (m1, m2)[j]
+                r[self.MEF_HDR[hdr] % c] = (m1, m2)[j]
             return r
         for rid in rows:
             if rid == 'BOK':
@@ -176,11 +178,11 @@ class World(object):
         t.index.name = 'ID'
         return t
 
-    def beads(self, fault='none', inst='A'):
-        """process the reference beads table once per (fault, instrument): (table with stats, samples, fxns, outputs)"""
-        key = (fault, inst)
+    def beads(self, fault='none', inst='A', hdr=0):
+        """process the reference beads table once per (fault, instrument, header spelling): (table with stats, samples, fxns, outputs)"""
+        key = (fault, inst) if hdr == 0 else (fault, inst, hdr)
         if key not in self._beads_cache:
-            t = self.beads_table(fault, inst)
+            t = self.beads_table(fault, inst, hdr=hdr)
             np.random.seed(3)
             with warnings.catch_warnings():
                 warnings.simplefilter('ignore')
@@ -230,9 +232,9 @@ class World(object):
         t.index.name = 'ID'
         return t
 
-    def process(self, table, beads_fault='none', inst='A', plot_dir=None):
+    def process(self, table, beads_fault='none', inst='A', plot_dir=None, hdr=0):
         """plot_dir: a folder name (under the world's directory) - the diagnostic figures are drawn as well"""
-        bt, bs, fx, mo = self.beads(beads_fault, inst)
+        bt, bs, fx, mo = self.beads(beads_fault, inst, hdr)
         with warnings.catch_warnings():
             warnings.simplefilter('ignore')
             try:
